@@ -15,7 +15,8 @@ CONSTANTS Threads, Inputs, MaxObjs, MaxCalls,
           BugCache,           \* a module-level result cache keyed by part of the input only
           BugAccessorMutates, \* an accessor pops an entry of the object's metric map
           BugJsonAlias,       \* as_json returns an internal dictionary by reference
-          BugEntryPointWritesTables  \* an entry point (interactive builder / calculator main) edits a shared constant table
+          BugEntryPointWritesTables, \* an entry point (interactive builder / calculator main) edits a shared constant table
+          BugCopyDiffers      \* a copy of an object is rebuilt from something other than the object's input
 Accessors == {"scores","severities","clean","clean_np","rh","tv","ev","json_uf","json_um","json_sf","json_sm","eq_self","hash","mutate_json","internals"}
 Pipeline == <<"parse","mandatory","fill","base","temporal","env">>
 \* abstract pure functions of an input i = <<kind, prefix, body>> ------------------------------
@@ -80,8 +81,14 @@ EntryPoint(kind) == /\ kind \in EntryPoints /\ ncalls < MaxCalls
                     /\ last' = <<"entry", kind>>
                     /\ globals' = IF BugEntryPointWritesTables THEN "G1" ELSE globals
                     /\ ncalls' = ncalls + 1 /\ UNCHANGED <<heap, thr, shared, cache, out>>
+\* ---- a copy (copy.copy, copy.deepcopy, a pickle round trip) is a new object that is the same function of the same input;
+\* the original is untouched
+Copy(o) == /\ o \in 1..Len(heap) /\ Len(heap) < MaxObjs /\ ncalls < MaxCalls
+           /\ heap' = Append(heap, IF BugCopyDiffers THEN [heap[o] EXCEPT !.filled = <<"rebuilt">>] ELSE heap[o])
+           /\ last' = <<"copy", o>> /\ ncalls' = ncalls + 1 /\ UNCHANGED <<thr, shared, cache, globals, out>>
 Next == \/ \E t \in Threads, i \in Inputs : Begin(t, i)
         \/ \E kind \in EntryPoints : EntryPoint(kind)
+        \/ \E o \in 1..MaxObjs : Copy(o)
         \/ \E t \in Threads : StepParse(t) \/ StepMandatory(t) \/ StepFill(t) \/ \E k \in 4..6 : StepScore(t, k)
         \/ \E o \in 1..MaxObjs, acc \in Accessors : Call(o, acc)
 Spec == Init /\ [][Next]_vars
